@@ -38,6 +38,14 @@ theorem multipleIncoming_false {es : List BEdge} (h : multipleIncoming es = fals
     · exact absurd ho (h.1 e₁ h₁)
     · exact ih h.2 e₁ h₁ e₂ h₂ ho
 
+theorem multipleIncoming_nodup {es : List BEdge} (h : multipleIncoming es = false) : OutsNodup es := by
+  induction es with
+  | nil => exact List.nodup_nil
+  | cons e es ih =>
+    simp only [multipleIncoming, Bool.or_eq_false_iff, List.any_eq_false, beq_iff_eq] at h
+    simp only [OutsNodup, List.map_cons, List.nodup_cons, List.mem_map, not_exists, not_and]
+    exact ⟨fun x hx => h.1 x hx, ih h.2⟩
+
 theorem isLeafIn_true {es : List BEdge} {n : BNode} (h : isLeafIn es n = true) : ∀ e ∈ es, e.out ≠ n := by
   simp only [isLeafIn, incoming, Option.isNone_iff_eq_none, List.find?_eq_none, beq_iff_eq] at h
   exact h
@@ -48,6 +56,7 @@ structure Checked (r : RawBag) (b : Bag) : Prop where
   outDup : (names r.outputs).Nodup
   rule2a : ∀ n ∈ r.outputs, r.virt.mem n.name = false
   single : SingleIncoming b.edges
+  outs : OutsNodup b.edges
   leaves : ∀ n ∈ r.inputs, ∀ e ∈ b.edges, e.out ≠ n
 
 theorem checks_ok {r : RawBag} {b : Bag} (h : r.checks b = .ok ()) : Checked r b := by
@@ -79,6 +88,7 @@ theorem checks_ok {r : RawBag} {b : Bag} (h : r.checks b = .ok ()) : Checked r b
       simp only [List.any_eq_true, not_exists, not_and, Bool.not_eq_true] at this
       exact this n.name (name_mem_names hn)
     single := multipleIncoming_false (by simpa using hmi)
+    outs := multipleIncoming_nodup (by simpa using hmi)
     leaves := by
       intro n hn
       have := hleaf
